@@ -22,7 +22,7 @@ ASSUMPTIONS = ["start_pos is legal: coords[start_pos] <= coord (asserted by getP
                "only the listed accessors run, so no handle is ever detached by a removal"]
 
 KINDS = ["read", "read", "read_prefix", "read_noalloc", "ref", "ref", "ref", "handle", "handle", "position",
-         "positionRef", "onecoord", "onecoord"]
+         "positionRef", "onecoord", "onecoord", "assign_prefix"]
 
 
 @st.composite
@@ -35,7 +35,7 @@ def ops(draw, default):
 
 @st.composite
 def cases(draw):
-    spec = draw(gen.tree_specs(max_depth=3, max_shape=5, defaults=(0, 0, 0, 2), floats=True))
+    spec = draw(gen.tree_specs(max_depth=3, max_shape=5, defaults=(0, 0, 0, 2, 1.5), floats=True))
     hows = ["ref", "fiber", "uncompressed", "yaml", "deepcopy"]
     if len(spec["shape"]) <= 2:
         hows += ["unowned", "unowned"]
@@ -61,7 +61,10 @@ def apply_write(mdl, pt, act, v, default):
         mdl[pt] = new
 
 
-def do_write(ref, act, v, default):
+def do_write(ref, act, v, default, as_element=False):
+    if as_element:
+        # the right-hand side is a whole element taken out of a fiber by position
+        v = Fiber([0], [v])[0]
     if act == 1:
         ref <<= v
     elif act == 2:
@@ -161,7 +164,7 @@ def check(case, rec):
                                 f"expected {exp_tree}")
             act = o["mode"] % 5
             # keep the name the in-place operator rebinds, as user code does (z_ref += v; ...; z_ref += w)
-            ref = do_write(ref, act, o["val"], default)
+            ref = do_write(ref, act, o["val"], default, as_element=(o["sel"][3] % 4 == 3 and act in (1, 2, 3)))
             apply_write(mdl, pt, act, o["val"], default)
             if act:
                 nwrites += 1
@@ -179,6 +182,28 @@ def check(case, rec):
             written.add(pt)
             if step - at >= 2:
                 naliased += 1
+        elif k == "assign_prefix":
+            # assignment through a reference at a partial point: the sub-tree under the prefix takes the
+            # source's content; afterwards neither side may see the other's updates (checked by the
+            # content comparison after every later step)
+            if d == 1:
+                continue
+            n = 1 + o["mode"] % (d - 1)
+            pt = m.point(o["sel"], n)
+            src_pt = m.point(o["sel"][1:] + o["sel"][:1], n)
+            if src_pt == pt:
+                continue
+            src = holder(o).getPayload(*src_pt)        # another sub-fiber of the same tree (or a fresh empty one)
+            src_cont = {p[n:]: v for p, v in mdl.items() if p[:n] == src_pt}
+            ref = holder(o).getPayloadRef(*pt)
+            ref <<= src
+            for p in [p for p in mdl if p[:n] == pt]:
+                del mdl[p]
+            for q, v in src_cont.items():
+                mdl[pt + q] = v
+                written.add(pt + q)
+            handles[:] = [h for h in handles if h[0][:n] != pt]     # handles into the replaced sub-tree are gone
+            rec.cls("assign-nonempty", bool(src_cont))
         elif k in ("position", "positionRef"):
             f, lvl = m.target(o["path"])
             c = o["sel"][0] % m.shape[lvl]
